@@ -4,7 +4,7 @@ import itertools
 from hypothesis import strategies as st
 
 from harness.core import Part, ok, viol, HarnessError
-from harness import pep440ref, dp
+from harness import pep440ref, dp, fuzz
 
 from bumpver import version as bv_version
 from bumpver import setuptools_v65_version as bv_v65
@@ -299,6 +299,7 @@ def selftest():
 
 PARTS = [
     Part("lists", check=check, strategy=version_list, n={"quick": 160000, "thorough": 3200000}),
+    fuzz.fuzz_part("lists-coverage-guided", build, check, size=320, runs={"quick": 32000, "thorough": 1600000}),
 ]
 
 MANIFEST = {
